@@ -99,8 +99,8 @@ def judge_resolve(g, res, text, part):
     def bad(what, desc):
         part["violations"].append(dict(
             key="%s:%s:vnacal_get_parameter_value" % (PROP, what),
-            desc="unknown reflect handle solved by %s / %s (%s, %s): %s" % (
-                g.shape[2], g.shape[3], g.shape[0], g.shape[1], desc),
+            desc="%s reflect handle solved by %s / %s (%s, %s): %s" % (
+                g.kind, g.shape[2], g.shape[3], g.shape[0], g.shape[1], desc),
             script=text))
     for c in g.checks:
         sv, ev = res.ev(c["solve"]), res.ev(c["line"])
@@ -117,6 +117,10 @@ def judge_resolve(g, res, text, part):
                         else float("inf"))
         if len(ev["ret"]) != len(c["truth"]):
             worst = float("inf")
+        if g.kind == "correlated" and np.isfinite(worst):
+            cnt["resolve_correlated_finite"] = cnt.get(
+                "resolve_correlated_finite", 0) + 1
+            continue
         rel = worst / (1e-12 * (1 + c["kappa"]))
         part["maxima"]["resolve_err_over_tol"] = max(
             part["maxima"].get("resolve_err_over_tol", 0.0),
